@@ -10,6 +10,7 @@ from concurrent.futures import ThreadPoolExecutor
 import vlib
 
 LEVEL = "model_checking"
+JVM = ["-XX:ParallelGCThreads=2"]
 
 
 def _lock_scratch(ctx):
@@ -59,7 +60,7 @@ def replay(ctx, binary, jobs, workers):
     for label, behs in jobs:
         for i, b in enumerate(behs):
             shards[i % workers].append(b)
-    env = {"GNOROOT": vlib.REPO}
+    env = {"GNOROOT": vlib.REPO, "GOMAXPROCS": "3"}
 
     def one(shard):
         return vlib.run_driver(ctx, binary, [], behaviours=shard, timeout=3000, env_extra=env)
@@ -121,7 +122,7 @@ def run(ctx):
 
     def tlc(run_):
         label, cfg, mode, k = run_
-        return vlib.run_tlc(ctx, "MCPackages", cfg, tags=("EDGE",) if mode == "edge" else (), workers=4 if quick else 6, timeout=3000)
+        return vlib.run_tlc(ctx, "MCPackages", cfg, tags=("EDGE",) if mode == "edge" else (), workers=4 if quick else 6, timeout=3000, jvm=JVM)
     with ThreadPoolExecutor(max_workers=3) as ex:
         results = list(ex.map(tlc, runs))
     jobs = []
